@@ -7,6 +7,7 @@ CONSTANTS
     ColSets = {{"x"}}
     Kinds = {"time_course"}
     FailModes = {"intfail"}
+    NameSchemes = {"plain"}
     Y0s = {0}
     Y0Again = FALSE
     MaxDur = 1
